@@ -18,9 +18,12 @@ GENERATORS.append(("T1 definition files", t1_defs.generate))
 
 def regenerate_all(ck):
     try:
+        texts = {}
         for name, fn in GENERATORS:
             for rel, text in fn(ck).items():
                 write_if_changed(COQ / rel, text)
+                texts[rel] = text
+        ck._gen_texts = texts      # what THIS check generated from ITS source (see Check.finish)
     except Exception as e:  # fail closed
         return False, f"{type(e).__name__}: {e}"
     return True, ""
